@@ -198,3 +198,8 @@ def generate(srcdir, fps):
     for f in ("is_date", "is_datetime", "to_datetime", "is_pytz", "is_pytz_dt", "normalize_pytz"):
         fps[f"tools.{f}"] = T.fingerprint(tools.func(f))
     return OUTPUT, "".join(out)
+
+
+# translate.py looks the output name up on the generator function when it fails closed (the module is
+# not in sys.modules), so that the per-file tie status and the baseline fallback find "Gen_sched.v"
+generate.OUTPUT = OUTPUT
